@@ -20,6 +20,7 @@ func init() {
 			{ID: "C08.R11", Title: "marshaler pointer heads honour the pointer depth (shared with C08)", Covers: "values reached through pointers up to depth 3 encode like encoding/json", Min: 16, Run: c08r11},
 			{ID: "C19.R6", Title: "first-field and other-field opcode merging agree (bit size, pointer depth, context flag, sub-query) (shared with C19)", Covers: "a field encodes the same whether it is the first of its struct or not", Min: 2, Run: c19r6},
 			{ID: "C17.R6", Title: "encoder.decodeRuneInString accepts exactly the well-formed (lead byte, second byte) pairs of UTF-8: the lead-byte table `first` and the accept-range switch are folded for all 256 × 256 pairs and compared with Unicode Table 3-7", Covers: "the same string contents as encoding/json for strings that are not valid UTF-8", Min: 256, Run: c17r6},
+			{ID: "C01.R9", Title: "mapKeyCode compiles a pointer key only under a TextMarshaler test, separates json.Number from the unquoted value path of strings, and uses the quoting constructors for every integer kind", Covers: "map keys are written as JSON strings for exactly the key types encoding/json supports", Min: 13, Run: c01r9},
 			{ID: "C01.R4", Title: "copyOpcode and every Filter method that rebuilds its receiver carry over each field that is assigned anywhere else in the package, field-for-field", Covers: "cached/filtered programs behave like the freshly compiled one", Min: 20, Run: c01r4},
 		},
 	})
@@ -53,6 +54,7 @@ func init() {
 			{ID: "C03.R3", Title: "per VM package: emitters end with appendComma's bytes, closers consume exactly len(appendComma) bytes of the tail, and package json trims exactly that many after encode/encodeIndent", Covers: "no dangling comma / unbalanced bracket from the trailing-separator protocol", Min: 60, Run: c03r3},
 			{ID: "C05.R6", Title: "json.Number values and numbers in marshaler output are checked against the JSON number grammar before they are written (shared with C05)", Covers: "no ill-formed number in the output; an ill-formed json.Number is an error", Min: 3, Run: c05r6},
 			{ID: "C17.R6", Title: "encoder.decodeRuneInString accepts exactly the well-formed (lead byte, second byte) pairs of UTF-8: the lead-byte table `first` and the accept-range switch are folded for all 256 × 256 pairs and compared with Unicode Table 3-7", Covers: "the output is valid UTF-8 while normalisation is on", Min: 256, Run: c17r6},
+			{ID: "C01.R9", Title: "mapKeyCode compiles a pointer key only under a TextMarshaler test, separates json.Number from the unquoted value path of strings, and uses the quoting constructors for every integer kind", Covers: "object member names are always JSON strings (no bare number as a key)", Min: 13, Run: c01r9},
 			{ID: "C17.R1", Title: "string appenders escape every control byte, quote and backslash on the 8-byte fast path, the tail loop and the slow loop (shared with C17)", Covers: "no raw control character inside an emitted string", Min: 150, Run: c17r1},
 		},
 	})
